@@ -31,7 +31,7 @@ git -C /repo worktree remove --force $wt
 if [ $r1 -eq 0 ] && [ $r2 -eq 0 ] && [ $r3 -ne 0 ]; then
   echo "== seed confirmed; running our checks with the change applied to /repo"
   git -C /repo apply $out/patch.diff || exit 2
-  for p in $props; do ./check $p quick > /tmp/sc_check_$p.log 2>&1; echo "check $p exit=$?"; grep -c "^VIOLATION" /tmp/sc_check_$p.log; grep "^VIOLATION" /tmp/sc_check_$p.log | grep -v binding | head -5; grep "^property" /tmp/sc_check_$p.log; done
+  for p in $props; do /verif/bin/gvc check -prop $p -tier quick -no-evidence > /tmp/sc_check_$p.log 2>&1; echo "check $p exit=$?"; grep -c "^VIOLATION" /tmp/sc_check_$p.log; grep "^VIOLATION" /tmp/sc_check_$p.log | grep -v binding | head -5; grep "^property" /tmp/sc_check_$p.log; done
   git -C /repo checkout -- .
   git -C /repo status --short | head -3
 else
